@@ -379,3 +379,53 @@ def rule_memo(ctx) -> RuleResult:
                                f"{w.what}: writes through the cached result of {t[1]}")
     res.inst(f"writes through cached results: {n}")
     return res
+
+
+# ---------------------------------------------------------------------------------------------
+# R-GETTER (C13, C03): reading an attribute of an object that is embedded in the graph never writes to it.
+# Blueprints (Aggregation / Scan / Dim ...) are bound into every task of a graph and shared by the threads that run them.  A property getter
+# is invoked by a plain attribute read, which the call graph does not see as a call: a getter that builds its value incrementally in `self`
+# (self._x += ..., self._x.append(...)) is a check-then-act race between the first tasks that read it.  Getters of flox classes contain no
+# explicit store through `self` (functools.cached_property's own memo is a single, value-determined store and is accepted).
+def rule_getter(ctx) -> RuleResult:
+    res = RuleResult("R-GETTER", "property getters of graph-embedded classes do not write through self", min_instances=2)
+    n = 0
+    for q, f in sorted(ctx.prog.funcs.items()):
+        node = f.node
+        if not isinstance(node, (ast.FunctionDef, ast.AsyncFunctionDef)) or not f.cls:
+            continue
+        decos = {norm(d).split(".")[-1] for d in node.decorator_list}
+        if not decos & {"property", "cached_property"}:
+            continue
+        n += 1
+        selfname = f.params[0] if f.params else "self"
+        writes = []
+        for x in walk_own(node):
+            tg = []
+            if isinstance(x, ast.Assign):
+                tg = x.targets
+            elif isinstance(x, (ast.AugAssign, ast.AnnAssign)):
+                tg = [x.target]
+            for t in tg:
+                base = t
+                while isinstance(base, (ast.Attribute, ast.Subscript)):
+                    base = base.value
+                if isinstance(base, ast.Name) and base.id == selfname and not isinstance(t, ast.Name):
+                    writes.append(x)
+            if isinstance(x, ast.Call) and isinstance(x.func, ast.Attribute) and x.func.attr in ("append", "extend", "update", "add", "insert", "setdefault", "pop", "clear") \
+                    and isinstance(x.func.value, ast.Attribute):
+                base = x.func.value
+                while isinstance(base, (ast.Attribute, ast.Subscript)):
+                    base = base.value
+                if isinstance(base, ast.Name) and base.id == selfname:
+                    writes.append(x)
+        res.inst(f"{q} (@{'/'.join(sorted(decos & {'property', 'cached_property'}))}): explicit stores through {selfname}: {len(writes)}", q)
+        if writes:
+            res.report(f"{q}|getter-writes-self", f.where(writes[0]), q,
+                       f"'{norm(writes[0])[:60]}' runs on a plain attribute read of an object that is bound into every task of a graph: the first tasks to read "
+                       f"'{f.name}' concurrently see (or double) a half-built value -- wrong combine functions / IndexError under a threaded scheduler, never under the "
+                       "synchronous one")
+    if n == 0:
+        res.notes.append("no property getters in flox classes")
+        res.min_instances = 0
+    return res
